@@ -1,9 +1,78 @@
 package props
 
 import (
+	"fmt"
+	"strings"
+
 	"verifh/core"
 	"verifh/scen"
 )
+
+// c16SizeOrder is "vcheck aux c16-size-order <seed> <s1> <s2> ...": in a fresh process, one displaced-slice scenario per
+// slice size, in the given order (what the search needs for one window length must not depend on the window lengths the
+// process handled before). Prints "ok" or what went wrong.
+func c16SizeOrder(args []string) int {
+	var seed int64 = 1
+	if len(args) > 0 {
+		fmt.Sscan(args[0], &seed)
+		args = args[1:]
+	}
+	for _, a := range args {
+		s := 0
+		fmt.Sscan(a, &s)
+		n := 4*s + s/2
+		cfg := scen.P2Config{Sizes: []int{n, s + 1}, Slice: s, Blocks: 3, Class: "uniq"}
+		set, err := scen.GetP2(cfg, seed)
+		if err != nil {
+			fmt.Printf("slice %d: create failed: %v\n", s, err)
+			return 0
+		}
+		total := (n+s-1)/s + 2
+		for _, ed := range []scen.Dmg{{Op: "ins", F: 0, At: 1, N: 1}, {Op: "cut", F: 0, At: s + 1, N: 2}, {Op: "ins", F: 0, At: 2*s + 1, N: s + 1}} {
+			fs := set.FS0.Clone()
+			set.ApplyDmg(fs, ed, seed)
+			lost := c16Lost(n, s, ed.Op == "ins", ed.At, ed.N)
+			var o scen.P2Obs
+			set.ObserveVerify(fs, 1, &o)
+			if o.VerifyPanic != nil || o.VerifyErr != nil {
+				fmt.Printf("slice %d edit %+v: Verify failed: %v %v\n", s, ed, o.VerifyErr, o.VerifyPanic)
+				return 0
+			}
+			// the geometry is an upper bound on the loss (see the self-check of the main cases)
+			if o.Counts.UsableDataShardCount < total-lost {
+				fmt.Printf("slice %d edit %+v: Verify found %d of %d slices, at least %d are there\n", s, ed, o.Counts.UsableDataShardCount, total, total-lost)
+				return 0
+			}
+			if lost > 3 {
+				continue
+			}
+			set.ObserveRepair(fs, 1, true, &o)
+			if o.RepairPanic != nil || o.RepairErr != nil || !set.AllOriginal(o.After) {
+				fmt.Printf("slice %d edit %+v: Repair with 3 blocks for %d lost slices: %v %v, all original: %v\n", s, ed, lost, o.RepairErr, o.RepairPanic, set.AllOriginal(o.After))
+				return 0
+			}
+		}
+	}
+	fmt.Println("ok")
+	return 0
+}
+
+// c16Permute calls f with every permutation of v.
+func c16Permute(v []int, f func([]int)) {
+	var rec func(k int)
+	rec = func(k int) {
+		if k == len(v) {
+			f(append([]int{}, v...))
+			return
+		}
+		for i := k; i < len(v); i++ {
+			v[k], v[i] = v[i], v[k]
+			rec(k + 1)
+			v[k], v[i] = v[i], v[k]
+		}
+	}
+	rec(0)
+}
 
 // C16: slices are found at any byte offset.
 
@@ -52,6 +121,14 @@ func c16Gen(g *core.Gen) {
 			c.DiskTwin = true
 		}
 		g.Emit(c)
+	}
+	// every order in which a fresh process can meet 3 (thorough 4) slice sizes
+	orderSizes := [][]int{{4, 12, 20}, {8, 64, 1000}}
+	if g.Thorough() {
+		orderSizes = [][]int{{4, 8, 20, 64}, {12, 16, 256, 4096}}
+	}
+	for _, os := range orderSizes {
+		c16Permute(os, func(p []int) { g.Emit(&p2Case{Order: p}) })
 	}
 	ss := []int{4, 8, 12, 16}
 	if g.Thorough() {
@@ -227,10 +304,11 @@ func c16Gen(g *core.Gen) {
 }
 
 func init() {
+	core.Aux["c16-size-order"] = c16SizeOrder
 	core.Register(&core.Prop{
 		ID:    "C16",
 		Level: "model_checking",
-		Rule: "(later rounds added: checksum-field boundary contents under displacement; zero tails of two bytes x every truncation point; same-size displacement for every a < b; aligned files with an insert in front of the last slice and bytes appended behind it; every 97th scenario as a disk twin) full product: slice size {4,8,12,16 (quick), +20,32,48 (thorough)} x file length {3s,3s+1,4s-1,5s+s/2} x {insert,delete} x every position 0..len x every edit length 1..2s+1 x second file present/absent, " +
+		Rule: "(later rounds added: checksum-field boundary contents under displacement; zero tails of two bytes x every truncation point; same-size displacement for every a < b; aligned files with an insert in front of the last slice and bytes appended behind it; every 97th scenario as a disk twin; fresh processes that meet 3 (thorough 4) slice sizes in every order) full product: slice size {4,8,12,16 (quick), +20,32,48 (thorough)} x file length {3s,3s+1,4s-1,5s+s/2} x {insert,delete} x every position 0..len x every edit length 1..2s+1 x second file present/absent, " +
 			"plus every ordered pair (content of f under g's name: swap, overwrite, rename); plus slice sizes {2000, 32768, 65536} (thorough also 4096, 16384, 32764, 32772) x 8 edit positions x 5 edit lengths. Recovery files are deleted so that exactly as many blocks remain as slices the edit touches. " +
 			"Oracle: Verify usable == slices found by brute-force scan == edit geometry; Repair must succeed with exactly that many blocks (a found slice that consumed a block would make it fail). non-trivial = edit destroys >=1 and leaves >=1 slice",
 		Assumptions: []string{"content is high-entropy and zero-free so the occurrence set is overlap-free (self-checked per case by the brute-force scan)"},
@@ -238,6 +316,21 @@ func init() {
 		Gen:         c16Gen,
 		Run: func(ci interface{}, r *core.Rec) {
 			c := ci.(*p2Case)
+			if len(c.Order) > 0 {
+				args := []string{fmt.Sprint(r.Seed)}
+				for _, s := range c.Order {
+					args = append(args, fmt.Sprint(s))
+				}
+				out, err := core.FreshProcess("c16-size-order", args...)
+				r.AddStates(len(c.Order))
+				r.AddTransitions(6 * len(c.Order))
+				if err != nil || strings.TrimSpace(out) != "ok" {
+					r.Violatef("displaced-slices-depend-on-earlier-slice-sizes", "fresh process, slice sizes in the order %v: %v %s", c.Order, err, strings.TrimSpace(out))
+				}
+				r.Outcome(fmt.Sprintf("order %v", c.Order))
+				r.NontrivialCase()
+				return
+			}
 			extra := c.Extra
 			c.Extra = nil
 			run := runP2(c, r, p2Clauses{ExactUsable: true, RepairWithinCapacity: true})
